@@ -631,6 +631,26 @@ class Inliner:
         for s_ in body:
             stored |= _names(s_, store=True)
         caller_names = _names(func.node)
+        # the variables this call's result is assigned to are dead from here until that assignment: the helper's own locals of the
+        # same name may keep their name (unless an argument of the call reads them)
+        reusable = set()
+        if mode == "assign":
+            tg0 = st.targets[0] if isinstance(st, ast.Assign) else st.target
+            reusable = {tg0.id}
+        elif mode == "tuple":
+            reusable = {t.id for t in st.targets[0].elts}
+        for a_ in list(call.args) + [k.value for k in call.keywords]:
+            reusable -= _names(a_)
+        if reusable:
+            p_ = getattr(st, "_parent", None)
+            while p_ is not None and p_ is not func.node:
+                if isinstance(p_, (ast.For, ast.While)):
+                    # in a loop the value of the previous iteration could be read before this statement
+                    for n_ in ast.walk(p_):
+                        if isinstance(n_, ast.Name) and isinstance(n_.ctx, ast.Load) and n_.id in reusable and not _inside(n_, st):
+                            if getattr(n_, "lineno", 0) <= getattr(st, "lineno", 0):
+                                reusable.discard(n_.id)
+                p_ = getattr(p_, "_parent", None)
         self.seq += 1
         tag = "%s%d" % (h.name.strip("_"), self.seq)
         subst, rename, pre = {}, {}, []
@@ -649,12 +669,12 @@ class Inliner:
                 if a.id != p:
                     rename[p] = a.id
             else:
-                newp = p if p not in caller_names else "%s_%s" % (p, tag)
+                newp = p if (p not in caller_names or p in reusable) else "%s_%s" % (p, tag)
                 if newp != p:
                     rename[p] = newp
                 pre.append(ast.Assign(targets=[ast.Name(id=newp, ctx=ast.Store())], value=clone(a), lineno=st.lineno))
         for loc in sorted(stored - set(params)):
-            if loc in caller_names and loc not in rename:
+            if loc in caller_names and loc not in rename and loc not in reusable:
                 rename[loc] = "%s_%s" % (loc, tag)
         rw = _Rewrite(subst, rename)
         body = [rw.visit(s_) for s_ in body]
@@ -727,9 +747,11 @@ class Inliner:
                     outl.append(ast.If(test=t, body=clone(tested.body) or [ast.Pass()], orelse=clone(tested.orelse)))
                     outl.append(leave_to(after_label))
                     return outl
-                if tnames is not None and isinstance(val, ast.Tuple) and len(val.elts) == len(tnames) and not (
-                        _names(val) & set(tnames)):
+                if tnames is not None and isinstance(val, ast.Tuple) and len(val.elts) == len(tnames) and not any(
+                        _names(ev) & set(tnames) for nm, ev in zip(tnames, val.elts) if not (isinstance(ev, ast.Name) and ev.id == nm)):
                     for nm, ev in zip(tnames, val.elts):
+                        if isinstance(ev, ast.Name) and ev.id == nm:
+                            continue  # the helper's local of that name already holds it
                         outl.append(ast.Assign(targets=[ast.Name(id=nm, ctx=ast.Store())], value=ev))
                 elif tnames is not None:
                     outl.append(ast.Assign(targets=[ast.Name(id=res, ctx=ast.Store())], value=val))
@@ -1351,8 +1373,15 @@ def _bindings(func_node):
     a = func_node.args
     for p in a.posonlyargs + a.args + a.kwonlyargs + ([a.vararg] if a.vararg else []) + ([a.kwarg] if a.kwarg else []):
         out[p.arg] = out.get(p.arg, 0) + 1
+    comp_targets = set()
+    for n in _walk_no_defs(func_node):
+        if isinstance(n, ast.comprehension):
+            for x in ast.walk(n.target):
+                comp_targets.add(id(x))  # a comprehension's variable lives in the comprehension only
     for n in _walk_no_defs(func_node):
         if isinstance(n, ast.Name) and isinstance(n.ctx, (ast.Store, ast.Del)):
+            if id(n) in comp_targets:
+                continue
             out[n.id] = out.get(n.id, 0) + 1
         elif isinstance(n, ast.ExceptHandler) and n.name:
             out[n.name] = out.get(n.name, 0) + 1
@@ -1689,6 +1718,58 @@ def unroll_tables(func_node):
             return None
         return e.args[0].elt, per, list(g.ifs), default
 
+    def search_loop(st):
+        """x = next((E for T in IT if C), D)  ->  x = D; for T in IT: if C: x = E; break
+           return any(C for T in IT)           ->  for T in IT: if C: return True; return False      (all: `if not C: return False`)"""
+        def gen_of(e, fn, nargs):
+            if isinstance(e, ast.Call) and isinstance(e.func, ast.Name) and e.func.id == fn and not nb.get(fn, 0) and not e.keywords \
+                    and len(e.args) in nargs and isinstance(e.args[0], (ast.GeneratorExp, ast.ListComp)) and len(e.args[0].generators) == 1 \
+                    and not e.args[0].generators[0].is_async and elements(e.args[0].generators[0].iter) is None:
+                g = e.args[0].generators[0]
+                tn = {n.id for n in ast.walk(g.target) if isinstance(n, ast.Name)}
+                if any(nb.get(t, 0) for t in tn):
+                    return None  # the loop variable would overwrite a variable of the function
+                # names read after the statement must not be the (now function-level) loop variable: guaranteed by nb == 0
+                return e.args[0], g
+            return None
+
+        def conds(g):
+            if not g.ifs:
+                return None
+            return g.ifs[0] if len(g.ifs) == 1 else ast.BoolOp(op=ast.And(), values=list(g.ifs))
+        if isinstance(st, ast.Assign) and len(st.targets) == 1 and isinstance(st.targets[0], ast.Name):
+            r = gen_of(st.value, "next", (1, 2))
+            if r is not None and isinstance(r[0], ast.GeneratorExp):
+                ge, g = r
+                tgt = st.targets[0].id
+                found = [ast.Assign(targets=[ast.Name(id=tgt, ctx=ast.Store())], value=ge.elt), ast.Break()]
+                c = conds(g)
+                body = [ast.If(test=c, body=found, orelse=[])] if c is not None else found
+                if len(st.value.args) == 2:
+                    if not isinstance(st.value.args[1], (ast.Constant, ast.Name)):
+                        return None
+                    pre = [ast.Assign(targets=[ast.Name(id=tgt, ctx=ast.Store())], value=st.value.args[1])]
+                    orelse = []
+                else:
+                    pre = []
+                    orelse = [ast.Raise(exc=ast.Call(func=ast.Name(id="StopIteration", ctx=ast.Load()), args=[], keywords=[]), cause=None)]
+                for t in {n.id for n in ast.walk(g.target) if isinstance(n, ast.Name)}:
+                    nb[t] = nb.get(t, 0) + 1
+                return pre + [ast.For(target=g.target, iter=g.iter, body=body, orelse=orelse)]
+        if isinstance(st, ast.Return) and st.value is not None:
+            for fn in ("any", "all"):
+                r = gen_of(st.value, fn, (1,))
+                if r is not None:
+                    ge, g = r
+                    t = ge.elt if fn == "any" else ast.UnaryOp(op=ast.Not(), operand=ge.elt)
+                    inner = [ast.If(test=t, body=[ast.Return(value=ast.Constant(value=(fn == "any")))], orelse=[])]
+                    c = conds(g)
+                    body = [ast.If(test=c, body=inner, orelse=[])] if c is not None else inner
+                    for tname in {n.id for n in ast.walk(g.target) if isinstance(n, ast.Name)}:
+                        nb[tname] = nb.get(tname, 0) + 1
+                    return [ast.For(target=g.target, iter=g.iter, body=body, orelse=[]), ast.Return(value=ast.Constant(value=(fn != "any")))]
+        return None
+
     skip = set()
 
     def block(stmts):
@@ -1737,6 +1818,13 @@ def unroll_tables(func_node):
                     count += 1
                     out.append(blk)
                     continue
+            # searches written as generator expressions over any iterable: the explicit loop they abbreviate
+            srch = search_loop(st)
+            if srch is not None:
+                mark(srch, anchor)
+                count += 1
+                out.extend(srch)
+                continue
             if isinstance(st, ast.Assign) and len(st.targets) == 1 and isinstance(st.targets[0], ast.Name):
                 sel = first_match(st.value)
                 if sel is not None:
@@ -1993,6 +2081,136 @@ def drop_logging(func_node, loggers):
             out.append(st)
         return out
     func_node.body = block(func_node.body)
+    if count[0]:
+        relink(func_node, getattr(func_node, "_parent", None))
+    return count[0]
+
+
+def thread_joins(func_node):
+    """Two restructurings that give the flow graph the facts the source states through booleans:
+
+    * `if C: a = X1 ... else: a = X2 ...` followed by `if a: ...` (a test of names that BOTH branches assign) and a short rest of the block:
+      the rest is copied to the end of both branches (each copy then tests the value its own branch computed);
+    * `c = E` ... `if c:` / `if not c:` in the same block, separated only by assignments to other plain locals, where that test is the
+      only reader of c: E is written in the test itself.
+    Returns the number of rewrites."""
+    count = [0]
+    relink(func_node, getattr(func_node, "_parent", None))
+
+    def assigned_plain(stmts):
+        out = None
+        names = set()
+        for s_ in stmts:
+            if isinstance(s_, ast.Assign) and len(s_.targets) == 1 and isinstance(s_.targets[0], ast.Name):
+                names.add(s_.targets[0].id)
+        return names
+
+    def simple_value(e):
+        return not any(isinstance(n, (ast.Call, ast.Await, ast.Yield, ast.YieldFrom, ast.NamedExpr, ast.Lambda)) and not (
+            isinstance(n, ast.Call) and _pure_expr(n)) for n in ast.walk(e))
+
+    def dup(stmts):
+        out = list(stmts)
+        i = 0
+        while i < len(out) - 1:
+            a, b = out[i], out[i + 1]
+            if isinstance(a, ast.If) and a.body and a.orelse and isinstance(b, ast.If) and _falls_through(a.body) and _falls_through(a.orelse):
+                both = assigned_plain(a.body) & assigned_plain(a.orelse)
+                tnames = {n.id for n in ast.walk(b.test) if isinstance(n, ast.Name)}
+                rest = out[i + 1:]
+                if both and tnames and tnames <= both and _size(rest) <= 12 and not any(
+                        isinstance(n, (ast.FunctionDef, ast.ClassDef, ast.Lambda)) for r in rest for n in ast.walk(r)) \
+                        and not any(isinstance(n, (ast.Break, ast.Continue)) for r in list(a.body) + list(a.orelse) for n in ast.walk(r)):
+                    a.body = list(a.body) + clone(rest)
+                    a.orelse = list(a.orelse) + rest
+                    del out[i + 1:]
+                    count[0] += 1
+                    break
+            i += 1
+        return out
+
+    def fold(stmts):
+        out = list(stmts)
+        changed = True
+        while changed:
+            changed = False
+            for i, d in enumerate(out):
+                if not (isinstance(d, ast.Assign) and len(d.targets) == 1 and isinstance(d.targets[0], ast.Name)):
+                    continue
+                x = d.targets[0].id
+                if x in _names(d.value):
+                    continue
+                # the next statement that is not an assignment to another plain local
+                j = i + 1
+                ok = True
+                vnames = _names(d.value)
+                while j < len(out) and isinstance(out[j], ast.Assign) and len(out[j].targets) == 1 and isinstance(out[j].targets[0], ast.Name) \
+                        and out[j].targets[0].id != x and out[j].targets[0].id not in vnames and x not in _names(out[j].value) \
+                        and simple_value(out[j].value):
+                    j += 1
+                if j >= len(out) or not isinstance(out[j], ast.If):
+                    continue
+                if j > i + 1 and not simple_value(d.value):
+                    continue  # E would be evaluated after the statements in between
+                t = out[j].test
+                hit = None
+                if isinstance(t, ast.Name) and t.id == x:
+                    hit = "plain"
+                elif isinstance(t, ast.UnaryOp) and isinstance(t.op, ast.Not) and isinstance(t.operand, ast.Name) and t.operand.id == x:
+                    hit = "not"
+                if hit is None:
+                    continue
+                # that test is the only reader: count loads of x in the function against the (def, test) pairs of this shape
+                loads = [n for n in ast.walk(func_node) if isinstance(n, ast.Name) and n.id == x and isinstance(n.ctx, ast.Load)]
+                pairs = pair_count(x)
+                if len(loads) != pairs:
+                    continue
+                if hit == "plain":
+                    out[j].test = d.value
+                else:
+                    out[j].test.operand = d.value
+                del out[i]
+                count[0] += 1
+                changed = True
+                break
+        return out
+
+    def pair_count(x):
+        n = 0
+        for node in ast.walk(func_node):
+            for _, _, lst in _stmt_lists(node) if isinstance(node, (ast.stmt, ast.ExceptHandler)) or node is func_node else []:
+                for i, d in enumerate(lst):
+                    if isinstance(d, ast.Assign) and len(d.targets) == 1 and isinstance(d.targets[0], ast.Name) and d.targets[0].id == x:
+                        j = i + 1
+                        while j < len(lst) and isinstance(lst[j], ast.Assign) and len(lst[j].targets) == 1 and isinstance(lst[j].targets[0], ast.Name) \
+                                and lst[j].targets[0].id != x and x not in _names(lst[j].value):
+                            j += 1
+                        if j < len(lst) and isinstance(lst[j], ast.If):
+                            t = lst[j].test
+                            if (isinstance(t, ast.Name) and t.id == x) or (isinstance(t, ast.UnaryOp) and isinstance(t.op, ast.Not)
+                                                                           and isinstance(t.operand, ast.Name) and t.operand.id == x):
+                                if x not in _names(ast.Module(body=list(lst[j].body) + list(lst[j].orelse), type_ignores=[])):
+                                    n += 1
+        return n
+
+    def block(stmts, fn):
+        out = []
+        for st in stmts:
+            if isinstance(st, (ast.FunctionDef, ast.AsyncFunctionDef, ast.ClassDef)):
+                out.append(st)
+                continue
+            out.append(st)
+        out = fn(out)
+        for st in out:
+            if isinstance(st, (ast.FunctionDef, ast.AsyncFunctionDef, ast.ClassDef)):
+                continue
+            for owner, fld, lst in _stmt_lists(st):
+                setattr(owner, fld, block(lst, fn))
+        return out
+    func_node.body = block(func_node.body, dup)
+    if count[0]:
+        relink(func_node, getattr(func_node, "_parent", None))
+    func_node.body = block(func_node.body, fold)
     if count[0]:
         relink(func_node, getattr(func_node, "_parent", None))
     return count[0]
